@@ -30,9 +30,12 @@ MANIFEST = {
             "install / uninstall / connect / disconnect / create / restore / add / remove (addKey / removeKey at the dynamic manager under "
             "a literal key of the owner's root manager) keep Inst for the edited inventory, are local, and leave no route through a "
             "removed key; the regenerated schema meets the side conditions at every dynamic site, and every dynamic add site has a remove "
-            "site except the folder / file levels, whose stale keys are guarded by the exists / not-deleted rules. PARTIAL: 'every "
-            "request is answered' holds in the model only for requests that are refused or carry the options their handler reads "
-            "(C05_answered_partial / C05_answered_counterexample; open finding F-C05-2: 30 handlers raise IndexError on missing options). "
+            "site except the folder / file levels, whose stale keys are guarded by the exists / not-deleted rules. 'Every "
+            "request is answered' is FULL since the repair of F-C05-2 (C05_FullAnswered: for every tree, rules, handlers - including "
+            "handlers that read options the request does not carry - state and request; a reached handler that reads a missing option "
+            "is answered failure by one central mechanism, pinned by C05_gen_missing_options_answered; C05_repair_answers_what_raised); "
+            "that a handler raises nothing ELSE is not a theorem - it is searched by the live families incl. R-boundary (boundary "
+            "values of every option of every action type and raw request). "
             "Dynamic sites: the guards of every add_request / remove_request site are regenerated and proved free of power / operating-state "
             "tests, with only presence / type guards beyond the registry statement (C05_gen_sites_unconditional); on the construction-order "
             "model routes = registry for every operation sequence (C05_exists_iff_route, C05_guarded_site_counterexample). No handler copies "
